@@ -153,7 +153,12 @@ CLAIMED = {
              "malformed inputs), the oracle demanding one definition for all renderings.",
         design="§7 C16", technique="Lean 4 proof (loader invariant under renderings; comment removal and namespace change are renderings; state model) + correspondence check"),
     "C17": dict(
-        text="PARTIAL. Proved about the mirror of the loader: types_unique / params_unique (a successful load has pairwise "
+        text="PARTIAL (identity). Proved end to end for loadXtce: loaded_consistent - whenever a load succeeds, the three name "
+             "tables hold one entry per name, every container in the table is one of the parsed containers filed under its own "
+             "name, every parsed container is in the table and each of its entries resolves (a parameter entry to a declared "
+             "parameter whose declared type are both in the tables, a container entry to a parsed container in the table), "
+             "and each container's inheritor list is exactly basedOn (the containers naming it as base, each once, in table "
+             "order; all lists start empty: loadContainer_empty). Also proved about the mirror of the loader: types_unique / params_unique (a successful load has pairwise "
              "distinct type and parameter names), duplicate_type_rejected / duplicate_parameter_rejected, "
              "unknown_type_ref_rejected / parameter_type_resolves, containers_unique (the three name tables of the definition "
              "object never hold two entries for a name, by induction through the recursive cache filling), inheritors_exact / "
